@@ -18,10 +18,20 @@ def run(res, tier):
         tlc_ok(g, "L4LBGrid")
         cov["states"] += g["distinct"]
         cov["transitions"] += g["generated"]
+        # 1b. pools of 4..8 upstreams (the property speaks of pool sizes 0..8): random walks of TLC through the same grammar
+        walks = 4 if tier == "quick" else 100   # TLC judges every successor it generates along a walk: ~250 pools per walk
+        gs = run_tlc(tmp, "L4LBGrid.tla", "L4LB_pool_sim.cfg", workers=4, timeout=1800, simulate=f"num={walks}", extra=["-depth", "9", "-seed", str(seed())])
+        big = {}
+        for x in gs["vout"]:
+            if len(x["pool"]) >= 4:
+                big.setdefault(json.dumps(x, sort_keys=True), x)
+        if len(big) < walks:
+            raise Inconclusive(f"TLC simulation produced only {len(big)} pools of 4..8 upstreams: {gs['errors'][:2]}")
         gf = os.path.join(tmp, "pools.ndjson")
         with open(gf, "w") as f:
-            for x in g["vout"]:
+            for x in g["vout"] + list(big.values()):
                 f.write(json.dumps(x) + "\n")
+        cov["large_pools"] = dict(n=len(big), sizes=sorted({len(x["pool"]) for x in big.values()}), rule=f"{walks} random walks per TLC worker (4 workers) through the pool grammar up to 8 upstreams, every generated successor kept, seed {seed()}")
         tr = os.path.join(tmp, "lb.ndjson")
         summ = os.path.join(tmp, "lb.sum.json")
         run_driver(vdrive, ["lb-single", "-in", gf, "-out", tr, "-summary", summ, "-draws", "64" if tier == "quick" else "256"], timeout=3000)
@@ -58,7 +68,7 @@ def run(res, tier):
         n, bad, st = validate_traces(tmp, tr, "lb_traces.ndjson", "L4LBTrace.tla", "L4LBTrace.cfg")
         cov["traces_validated_against_impl"] = n + ident
         cov["single_selection"] = dict(pool_states=s1["pool_states"], selections=s1["selections"],
-                                       rule="pools of 0..3 upstreams x 1-2 peers from boundary peer states (idle, busy, at max_connections, one failure short, at max_fails, unhealthy) x max_conns on/off x max_fails on/off; 8 policy configurations each; random policies drawn repeatedly")
+                                       rule="every pool of 0..3 upstreams (and sampled pools of 4..8, see large_pools) x 1-2 peers from boundary peer states (idle, busy, at max_connections, one failure short, at max_fails, unhealthy) x max_conns on/off x max_fails on/off; 8 policy configurations each; random policies drawn repeatedly")
         cov["sequences"] = dict(n=seqs, round_robin_identical_to_model=ident)
         cov["samples"] += s1["samples"][:2]
         traces = {}
